@@ -195,7 +195,12 @@ impl Jet {
         if self.c[0].v == 0.0 {
             return Some(v);
         }
-        let k = 3 * levels.max(1);
+        // the outermost level evaluates the closed forms n x^(n-1), n (n-1) x^(n-2), ... directly; only
+        // the inner levels see the products x^(n-3) x x x in dual arithmetic
+        let k = 3 * levels.saturating_sub(1);
+        if k == 0 {
+            return Some(v);
+        }
         let mut b = self.powf(n - k as f64, leaf_units)?;
         for _ in 0..k {
             b = b.mul(self);
